@@ -172,3 +172,23 @@ def iife_programs():
         "functie dubbel(x) { x * 2 }(21); dubbel(1)", "functie dubbel(x) { x * 2 }\n(21)", "functie dubbel(x) { x * 2 };\n(21)",
         "print(functie groet(n) { n }(\"hoi\"))", "functie fac(n) { als n < 2 { antwoord 1 }; n * fac(n - 1) }(5)",
     ]
+
+
+def width_boundary_programs():
+    """operand widths: one-byte operands (argument counts) around 255/256, two-byte operands (element counts) around
+    65535/65536, slot and constant indices past 255: right value below the limit, SyntaxError (size limit, flagged by the
+    model) above it - never a truncated operand"""
+    out = []
+    for n in (254, 255, 256, 257):
+        ps = ", ".join("p%d" % i for i in range(n))
+        args = ", ".join(str(i) for i in range(n))
+        out.append(("width-params", "functie f(%s) { p0 + p%d }; f(%s)" % (ps, n - 1, args)))
+        out.append(("width-args-fewer", "functie f(%s) { [p0, p%d] }; f(%s)" % (ps, n - 1, ", ".join(str(i) for i in range(n - 1)))))
+        out.append(("width-locals", "functie f() { %s l0 + l%d }; f()" % (" ".join("stel l%d = %d;" % (i, i) for i in range(n)), n - 1)))
+        out.append(("width-array", "stel a = [%s]; [lengte(a), a[0], a[-1], a[%d]]" % (", ".join(str(1000 + i) for i in range(n)), n - 2)))
+        out.append(("width-consts-in-function", "functie f(x) { [%s][x] }; [f(0), f(%d), f(%d)]" % (", ".join(str(5000 + i) for i in range(n)), n - 1, n // 2)))
+        out.append(("width-print-args", "print(\"%s\", %s)" % ("{} " * 3, args)))
+        out.append(("width-globals", " ".join("stel g%d = %d;" % (i, i) for i in range(n)) + " [g0, g%d, g%d]" % (n - 1, n // 2)))
+    for n in (65534, 65535, 65536, 65537):
+        out.append(("width-array-16", "stel a = [%s]; [lengte(a), a[-1]]" % ", ".join(["7"] * n)))
+    return out
